@@ -193,6 +193,13 @@ func Same(a, b tengo.Object) bool {
 	case *tengo.ImmutableArray:
 		y, ok := b.(*tengo.ImmutableArray)
 		return ok && sameList(x.Value, y.Value)
+	case *tengo.CompiledFunction:
+		// functions are compared as "is a function" only
+		_, ok := b.(*tengo.CompiledFunction)
+		return ok
+	case *tengo.BuiltinFunction:
+		y, ok := b.(*tengo.BuiltinFunction)
+		return ok && x.Name == y.Name
 	case *tengo.Map:
 		y, ok := b.(*tengo.Map)
 		return ok && sameMap(x.Value, y.Value)
@@ -227,4 +234,16 @@ func sameMap(x, y map[string]tengo.Object) bool {
 		acc = vf.And(acc, Same(xv, yv))
 	}
 	return acc
+}
+
+// RunGuarded runs c.Run() and converts a Go panic escaping it into a result:
+// panicked=true with the panic text (Compiled.Run does not recover; the
+// context-aware path does, and C05 is about that).
+func RunGuarded(c *tengo.Compiled) (err error, panicked bool, ptext string) {
+	res := vf.Guard(func() { err = c.Run() }, 6000000)
+	vf.Assert(res == 0 || res == 1, "run returns or panics recoverably (no hang, no fatal error): "+vf.LastGuard())
+	if res == 1 {
+		return nil, true, vf.LastGuard()
+	}
+	return err, false, ""
 }
